@@ -111,7 +111,9 @@ Definition step (cls : ccls) (st : cstate) (c : ccall) : res cstate :=
       if is_some tb then attr_err
       else Ok (mk_cstate (Some t) tmp unl sel cols pers sv pk uqs ine fk loc prs)
   | KTemporary => Ok (mk_cstate tb true unl sel cols pers sv pk uqs ine fk loc prs)
-  | KUnlogged => Ok (mk_cstate tb tmp true sel cols pers sv pk uqs ine fk loc prs)
+  | KUnlogged =>
+      if rejects_unlogged cls then attr_err      (* VerticaCreateQueryBuilder.unlogged raises (1e06637) *)
+      else Ok (mk_cstate tb tmp true sel cols pers sv pk uqs ine fk loc prs)
   | KSysVer => Ok (mk_cstate tb tmp unl sel cols pers true pk uqs ine fk loc prs)
   | KIfNotExists => Ok (mk_cstate tb tmp unl sel cols pers sv pk uqs true fk loc prs)
   | KLocal =>
@@ -206,9 +208,9 @@ Definition create_text (cls : ccls) (t : table) (calls : list ccall) : string :=
 (* ------------------------------------------------------------------------------------------ *)
 (* 3. CreateIndexBuilder                                                                       *)
 (* ------------------------------------------------------------------------------------------ *)
-(* create_index(index: str | Index) : the f-string prints the bare str, or Index.__str__ (double-quoted name) *)
+(* create_index(index: str | Index) *)
 Inductive iname := INStr (s : string) | INObj (s : string).
-(* on(table: str | Table) : the f-string prints the bare str, or Table.__str__ (double-quoted) *)
+(* on(table: str | Table); a str is tested for truthiness by get_sql *)
 Inductive itable := ITStr (s : string) | ITObj (t : table).
 
 Record istate := mk_istate {
@@ -235,8 +237,9 @@ Definition ibuild (i : iname) (calls : list icall) : istate :=
   fold_left istep calls (mk_istate i [] None [] false false).
 
 Definition snonempty_b (s : string) : bool := match s with EmptyString => false | _ => true end.
-Definition iname_text (i : iname) : string := match i with INStr s => s | INObj s => fqq QDouble s end.
-Definition itable_text (t : itable) : string := match t with ITStr s => s | ITObj t => render_table QDouble t end.
+(* a str name is quoted with format_quotes and the double quote (f8ac2a6), an object through its __str__ *)
+Definition iname_text (i : iname) : string := match i with INStr s => fqq QDouble s | INObj s => fqq QDouble s end.
+Definition itable_text (t : itable) : string := match t with ITStr s => fqq QDouble s | ITObj t => render_table QDouble t end.
 Definition itable_truthy (t : option itable) : bool :=
   match t with None => false | Some (ITStr EmptyString) => false | Some _ => true end.
 
@@ -830,14 +833,12 @@ Definition spec_ok (q : quote) (t : table) (calls : list ccall) : bool :=
    && match last_pk calls with Some ns => forallb (name_ok q) ns | None => true end
    && match last_fk calls with Some f => fkey_ok q f | None => true end)%bool.
 
-(* the flag Vertica's _create_table_sql does not look at *)
+(* the flag Vertica's _create_table_sql does not look at: since 1e06637 the Vertica builder rejects
+   unlogged(), so an accepted program never contains it (lemma accepted_no_unlogged) *)
 Definition create_frag (cls : ccls) (calls : list ccall) : bool :=
-  match cls with
-  | CVertica => negb (existsb is_call_unlogged calls)
-  | _ => true
-  end.
+  negb (rejects_unlogged cls && existsb is_call_unlogged calls)%bool.
 
-(* flag calls: they write one scalar slot each and read nothing *)
+(* flag calls: they write one scalar slot each and read nothing (unlogged() may be rejected by the class) *)
 Definition is_flag_call (c : ccall) : bool :=
   match c with KTemporary | KUnlogged | KSysVer | KIfNotExists => true | _ => false end.
 
@@ -850,13 +851,11 @@ Definition index_ast_of (i : iname) (calls : list icall) : index_ast :=
     (map cname (i_columns st))
     (match i_wheres st with [] => None | ws => Some (join " AND " ws) end).
 
-(* the fragment on which CREATE INDEX names what it was given: names given as str (and all column
-   names, which are always printed bare) are bare identifiers; names given as Index/Table objects
-   are quote-free *)
-Definition iname_ok (i : iname) : bool :=
-  match i with INStr s => (name_ok QNone s && kw_free QNone s)%bool | INObj s => name_ok QDouble s end.
+(* the fragment on which CREATE INDEX names what it was given: the column names - always printed
+   bare, c.name - are bare identifiers; index and table names are merely quote-free *)
+Definition iname_ok (i : iname) : bool := match i with INStr s | INObj s => name_ok QDouble s end.
 Definition itable_ok (t : itable) : bool :=
-  match t with ITStr s => name_ok QNone s | ITObj t => table_ok QDouble t end.
+  match t with ITStr s => (name_ok QDouble s && snonempty s)%bool | ITObj t => table_ok QDouble t end.
 
 Definition index_frag (st : istate) : bool :=
   (iname_ok (i_index st)
